@@ -142,6 +142,21 @@ type os_stdout struct{}
 
 func (os_stdout) Write(b []byte) (int, error) { fmt.Print(string(b)); return len(b), nil }
 
+// termField: the struct field a value is read from — x.f of a struct value, or the load of &x.f.
+func termField(t *an.Term) string {
+	t = t.StripConv()
+	if t == nil {
+		return ""
+	}
+	if t.Op == "field" {
+		return t.Aux
+	}
+	if t.Op == "load" && len(t.Args) == 1 && t.Args[0] != nil && t.Args[0].Op == "fieldaddr" {
+		return t.Args[0].Aux
+	}
+	return ""
+}
+
 // lookupOf: the map lookup a value comes from — m[k] itself or the value of v, ok := m[k].
 func lookupOf(h *an.Term) *an.Term {
 	if h == nil {
@@ -200,6 +215,24 @@ func strParts(t *an.Term) ([]strPart, bool) {
 					out = append(out, ps...)
 				}
 				return mergeLits(out), true
+			}
+		case "strings.Join":
+			// Join([]string{a, b, …}, sep)
+			if len(c.Args) == 2 && c.Args[0].Op == "varargs" && len(c.Args[0].Args) > 0 {
+				if sep, ok := c.Args[1].ConstString(); ok {
+					var out []strPart
+					for i, e := range c.Args[0].Args {
+						ps, ok := strParts(e)
+						if !ok {
+							return nil, false
+						}
+						if i > 0 && sep != "" {
+							out = append(out, strPart{Lit: sep})
+						}
+						out = append(out, ps...)
+					}
+					return mergeLits(out), true
+				}
 			}
 		case "fmt.Sprintf":
 			return fmtParts(c.Args[0], c.Args[1])
@@ -467,4 +500,51 @@ func (f splitFld) is(base *an.Term, sep string, idx, n int) bool {
 	}
 	// a piece in front of the rest is the same piece whatever the number of pieces asked for
 	return f.N == n || (idx < f.N-1 && idx < n-1)
+}
+
+// ---- contents of a locally built slice, normalised ----
+
+// sliceElems returns the elements of a slice value built on this path: a composite literal, a make([]T, n) filled
+// through indexed stores, or append(...) chains on one of those. ok is false when the shape is not recognised.
+func sliceElems(s *an.PathState, t *an.Term) ([]*an.Term, bool) {
+	t = t.StripConv()
+	if t == nil {
+		return nil, false
+	}
+	switch {
+	case t.Op == "varargs":
+		return append([]*an.Term(nil), t.Args...), true
+	case t.Op == "make" && t.Aux == "slice":
+		n, ok := t.Args[0].ConstInt()
+		if !ok || n < 0 || n > 64 {
+			return nil, false
+		}
+		out := make([]*an.Term, n)
+		for _, e := range s.Events {
+			if e.Kind == "store" && e.Args[0].Op == "indexaddr" && e.Args[0].Args[0].K == t.K {
+				if i, ok := e.Args[0].Args[1].ConstInt(); ok && i >= 0 && i < n {
+					out[i] = e.Args[1]
+				} else {
+					return nil, false
+				}
+			}
+		}
+		return out, true
+	case t.Op == "call" && t.Aux == "builtin append" && len(t.Args) == 2:
+		base, ok := sliceElems(s, t.Args[0])
+		if !ok {
+			return nil, false
+		}
+		add := t.Args[1].StripConv()
+		if add.Op != "varargs" {
+			return nil, false
+		}
+		return append(base, add.Args...), true
+	}
+	return nil, false
+}
+
+// lowZero: a slice expression without lower bound (x[:n] and x[0:n] are the same term).
+func lowZero(t *an.Term) bool {
+	return t != nil && t.Op == "slice" && len(t.Args) == 4 && (t.Args[1] == nil || t.Args[1].IsConst("0"))
 }
